@@ -328,6 +328,26 @@ fn main() {
 				bi += 1;
 				sink_runs += explore(&c, Budget { refusals: 0, faults: 0, max_runs: 1 }, &mut |c, r| out.emit(c, r));
 			}
+			// histories on one thread: a constructor call must not depend on earlier calls (a rejected
+			// input followed by a duplicate-free one sharing a lock with it, and the other way round)
+			let rejected: Vec<Vec<usize>> = vec![vec![0, 0], vec![0, 1, 0], vec![1, 0, 0], vec![2, 1, 2]];
+			let accepted: Vec<Vec<usize>> = vec![vec![0], vec![0, 1], vec![1, 2], vec![2, 0, 1]];
+			for (ri, rj) in rejected.iter().enumerate() {
+				for (ai, aj) in accepted.iter().enumerate() {
+					let mk = |l: &Vec<usize>| Expr::V(l.iter().map(|i| Expr::M(*i)).collect());
+					let mut prog: Vec<Stmt> = Vec::new();
+					for k in [b'T', b'B', b'F'] {
+						prog.push(Stmt::TryNew(k, mk(aj)));
+						prog.push(Stmt::TryNew(k, mk(rj)));
+						prog.push(Stmt::TryNew(k, mk(aj)));
+						prog.push(Stmt::TryNew(k, mk(rj)));
+					}
+					let perm = &perms[(ri * 5 + ai * 3 + seed as usize) % perms.len()];
+					let c = base(format!("{family}{bi}"), n + 1, perm, &pre, &vec![b'F'; n + 1], prog);
+					bi += 1;
+					sink_runs += explore(&c, Budget { refusals: 0, faults: 0, max_runs: 1 }, &mut |c, r| out.emit(c, r));
+				}
+			}
 		}
 		// data routing and continuity: write distinct values through every position of a collection
 		// (every kind, listing and address permutation, nesting), then read every lock back singly
